@@ -148,5 +148,5 @@ NOT_APPLICABLE = {}
 NOTES = (
     "All checks: /venv/bin/python check.py <id> --tier quick|thorough (honours VERIF_SEED, VERIF_TIER); exit 2 = "
     "harness could not run. known_findings.json lists open findings (KNOWN-FINDING lines) and fixed defects. "
-    "14 genuine defects were repaired by 'fix:' commits in /repo (see DESIGN.md 2.7)."
+    "16 genuine defects were repaired by 'fix:' commits in /repo and 9 are recorded as open findings (see DESIGN.md 5)."
 )
